@@ -17,6 +17,10 @@ type Shape struct {
 	Weighted bool `json:"weighted"`
 	Ans      bool `json:"ans"`
 	Extra    bool `json:"extra"`
+	// with RocksDB the data of the answer phase / of the SOA-NS-additional phase was already fetched
+	// by IsAuthoritative in the same request (per-request context cache of the rdb driver)
+	AnsCached   bool `json:"ans_cached"`
+	ExtraCached bool `json:"extra_cached"`
 }
 
 // DiskEntry is one path of the initial disk.
@@ -50,16 +54,17 @@ type Case struct {
 
 // Query shapes of the stamped zone.
 var shapeTable = map[string]Shape{
-	"example.com.|15":       {Ans: true, Extra: true}, // MX: preference + additional A
-	"www.example.com.|1":    {Ans: true},
-	"txt.example.com.|16":   {Ans: true},
-	"geo.example.com.|1":    {Ans: true},
-	"nx.example.com.|1":     {Extra: true}, // NXDOMAIN: SOA serial
-	"www.example.com.|16":   {Extra: true}, // NODATA: SOA serial
-	"x.sub.example.com.|1":  {Extra: true}, // referral: glue
-	"wrr.example.com.|1":    {Ans: true, Weighted: true},
-	"other.org.|1":          {Refused: true},
-	"example.com.|6":        {Ans: true}, // SOA
+	"example.com.|15":      {Ans: true, Extra: true, AnsCached: true}, // MX: preference + additional A (a new key)
+	"www.example.com.|1":   {Ans: true, AnsCached: true},
+	"txt.example.com.|16":  {Ans: true, AnsCached: true},
+	"geo.example.com.|1":   {Ans: true, AnsCached: true},
+	"nx.example.com.|1":    {Extra: true, AnsCached: true, ExtraCached: true}, // NXDOMAIN: SOA serial of the apex
+	"www.example.com.|16":  {Extra: true, AnsCached: true, ExtraCached: true}, // NODATA: SOA serial
+	"www.example.com.|28":  {Extra: true, AnsCached: true, ExtraCached: true},
+	"x.sub.example.com.|1": {Extra: true, AnsCached: true}, // referral: glue (a new key)
+	"wrr.example.com.|1":   {Ans: true, Weighted: true, AnsCached: true},
+	"other.org.|1":         {Refused: true},
+	"example.com.|6":       {Ans: true, AnsCached: true}, // SOA
 }
 
 // hasMap: names for which the static part declares a resolver / ECS map; every other
